@@ -1395,6 +1395,8 @@ def _small_path(ex, p, f, A, kind, enc, L, klen, names, st):
         if got is None:
             IO("output byte %d of %d is never written" % (j, n))
         elif j in exp and got != exp[j]:
+            if any(b_ is gf2.TOP for b_ in got):
+                raise Broken("%s: with length %d output byte %d is not representable in the GF(2) term domain: not decided by the small-length rule" % (f.name, L, j))
             C("output byte %d is %s, the mode has %s" % (j, gf2.describe(got[0]), gf2.describe(exp[j][0])))
     lenobj = A["clen"] if enc else A["mlen"]
     lenval = n + 8 if enc else n
